@@ -145,6 +145,7 @@ func scenAMR(s *sched.Sim, cfg Config, res *Result) {
 		return append(acc, v)
 	}
 
+	s.Describe(map[string]any{"n": n, "items(idx:fail/behave/nestedN/nestedErr)": desc, "reduce_parks": reducePark, "policy": fmt.Sprintf("%+v", pol)})
 	s.Go("caller", func() {
 		acc, errs := common.AsyncMapReduce(items, []int(nil), mapFn, reduceFn)
 		atReturnMap = len(st.mapCalls)
